@@ -11,6 +11,7 @@ CONSTANTS
   FixNonRequest = TRUE
   FixLongWs = TRUE
   FarChoices = {TRUE, FALSE}
+  FixNullRequired = TRUE
   HasValidator = TRUE
   NilPointerSkipsValidation = TRUE
 INIT Init
